@@ -24,6 +24,7 @@ class Result:
         self.extra = {}
         self.samples = []
         self.tool_errors = []
+        self.undecided_list = []   # dict(rule, what, where): the rule did not recognise the code it is about
 
     # -- recording
     def rule(self, rid, desc, floor=0):
@@ -47,18 +48,26 @@ class Result:
         self.instances.append({"rule": rid, "instance": instance, "where": where, "ok": False,
                                "detail": what})
 
-    def anchor_lost(self, rid, what, where=None):
+    def undecided(self, rid, what, where=None):
+        """The rule does not recognise the shape of the code it is about (renamed, restructured, re-expressed): it says so
+        and decides nothing. Not a violation: a violation is reported only for code the rule understood and found
+        deviating. With VERIF_STRICT=1 (used on the audited tree, where every anchor must be found) this is fatal."""
         self.rules.setdefault(rid, {"desc": "", "floor": 0, "instances": 0, "violations": 0})
-        self.violation(rid, "anchor_lost", "anchor lost: " + what, where)
+        self.undecided_list.append({"rule": rid, "what": what, "where": where})
+
+    def anchor_lost(self, rid, what, where=None):
+        self.undecided(rid, "anchor lost: " + what, where)
+
+    def missing(self, rid, instance, what, where=None):
+        """A construct the property requires is absent from code the rule did recognise: a violation."""
+        self.rules.setdefault(rid, {"desc": "", "floor": 0, "instances": 0, "violations": 0})
+        self.violation(rid, instance, what, where)
 
     def check_floors(self):
         for rid, r in sorted(self.rules.items()):
             if r["instances"] < r["floor"]:
-                self.violations.append({
-                    "key": "%s/floor" % rid, "rule": rid,
-                    "what": "anchor lost: rule %s matched %d instance(s), floor is %d (%s)" % (
-                        rid, r["instances"], r["floor"], r["desc"]),
-                    "where": None, "detail": None})
+                self.undecided(rid, "rule %s matched %d instance(s), %d were found on the audited tree (%s)" % (
+                    rid, r["instances"], r["floor"], r["desc"][:120]))
 
     # -- finishing
     def finish(self):
@@ -100,7 +109,17 @@ class Result:
                 print("    detail: %s" % (str(v["detail"])[:1500],))
             print("VIOLATION property=%s replay=%s" % (self.prop, rp))
             rc = 1
+        seen_u = set()
+        for u in self.undecided_list:
+            k = (u["rule"], u["what"])
+            if k in seen_u:
+                continue
+            seen_u.add(k)
+            print("UNDECIDED property=%s rule=%s %s%s" % (self.prop, u["rule"], u["what"], (" (%s)" % u["where"]) if u.get("where") else ""))
         self.write_evidence(len(seen_keys), known_hit)
+        if self.undecided_list and os.environ.get("VERIF_STRICT"):
+            print("STRICT: %d rule(s) undecided" % len(seen_u))
+            return 2 if rc == 0 else rc
         return rc
 
     def write_evidence(self, nviol, known_hit):
@@ -126,6 +145,7 @@ class Result:
             "samples": samples[:40],
             "rules": rules,
             "known_findings_reported": known_hit,
+            "undecided": self.undecided_list[:50],
             "notes": self.notes,
         }
         cov.update(self.extra)
